@@ -395,7 +395,7 @@ example :
             create: read the group), release the inner lock;
     step 3  run `post` on the protected part (create: insert the capture made at step 2; rollback:
             nothing), release the outer lock.
-  Other threads may run between the steps, but only steps the locks admit (`respects`): while the
+  Other threads may run between the steps, but only steps the locks allow (`respects`): while the
   outer lock is held nobody else takes it. -/
 
 /-- A nested operation is equivalent to ONE atomic step (`NestOps.fuse`: all three steps in one
@@ -565,7 +565,7 @@ theorem two_sections_witness :
       (seqRun (fun op => whole lkInnerW op) order raceStore).1.mls = [(1, 0, 15)] := by
   decide
 
-/-- the SAME schedule is not admitted by the locks of the nested shape: thread 1's
+/-- the SAME schedule is not allowed by the locks of the nested shape: thread 1's
     `release_group_snapshot` needs `group_snapshots`, which thread 0 holds until its restore is done -/
 theorem nested_excludes_witness_schedule : ¬ respects (init (memProgWith true) raceOps raceStore) [0, 1, 1, 0] := by
   intro h
@@ -575,7 +575,7 @@ theorem nested_excludes_witness_schedule : ¬ respects (init (memProgWith true) 
 
 /-- … and for the CURRENT source: if its shape table shows two separate sections, the full statement
     is false of `lockProg .mem` (this is finding `mem-snapshot-two-locks`); if it shows the nested form, the same
-    schedule is not admitted and `mem_linearizable_of_nested_shape` applies -/
+    schedule is not allowed and `mem_linearizable_of_nested_shape` applies -/
 theorem current_two_sections_not_linearizable (h : memSnapNested = false) : ¬ C19_mem_snapshot_full (lockProg .mem) := by
   have e : lockProg .mem = memProgWith false := by show memProgWith memSnapNested = _; rw [h]
   rw [e]; exact two_sections_not_linearizable
